@@ -264,6 +264,10 @@ func runA7(c *core.Ctx) {
 				c.Undecided(fn+"/offsets", fd.Pos(), "cannot enumerate emitted sequences")
 				continue
 			}
+			if anyTrunc(seqs) {
+				c.Undecided(fn+"/offsets", fd.Pos(), "a helper could not be inlined within the path budget")
+				continue
+			}
 			nptr, nlen := 0, 0
 			bad := map[string]token.Pos{}
 			for _, sq := range seqs {
